@@ -176,6 +176,7 @@ func (p *Program) RunPath(req *Request, proc *smt.Proc) (res *PathResult) {
 		G.finishObs()
 		res = G.result(outcome, detail)
 		res.Races = raceReports()
+		res.Sched = S.log
 		res.QSat = smt.GStats.Sat - g0.Sat
 		res.QUnsat = smt.GStats.Unsat - g0.Unsat
 		res.QUnknown = smt.GStats.Unknown - g0.Unknown
